@@ -5,6 +5,7 @@ package interp
 // Each has a written contract; anything outside it is inconclusive.
 
 import (
+	"encoding/json"
 	"fmt"
 	"go/types"
 	"regexp"
@@ -271,6 +272,24 @@ func extJSONMarshal(fr *frame, args []value) value {
 			return tuple{out, nilErr()}
 		}
 		return tuple{[]value(nil), i.mkError("json: error calling MarshalJSON for type vxrt.JSONValue: invalid character")}
+	}
+	// concrete scalars: the host's encoding/json
+	var gv interface{}
+	okv := true
+	switch v := itf.v.(type) {
+	case bool, int, int8, int16, int32, int64, uint, uint8, uint16, uint32, uint64, float32, float64, string:
+		gv = v
+	default:
+		okv = false
+	}
+	if okv {
+		if _, isBasic := itf.t.Underlying().(*types.Basic); isBasic {
+			b, err := json.Marshal(gv)
+			if err != nil {
+				return tuple{[]value(nil), i.mkError(err.Error())}
+			}
+			return tuple{strBytes(string(b)), nilErr()}
+		}
 	}
 	i.abort("json.Marshal stub: operand of type %s is not modelled (reflection)", itf.t)
 	return nil
